@@ -175,7 +175,7 @@ ob("var", "VerifC03XVar", q, q,
 # ---- character names in every letter case ----
 q = [(s_, v) for s_ in range(8) for v in (0, 1, 2)] + [(0, 3), (2, 3), (5, 3), (7, 3)]
 t = [(s_, v) for s_ in range(8) for v in (0, 1, 2, 3)]
-ob("charname", "VerifC03XCharName", q, t,
+ob("charname", "VerifC03XCharName", t, t,
    "the text the real printer writes for the named characters (Space Newline Tab Page Return Rubout Backspace) and for a "
    "SYMBOLIC control character (#\\u00XX) is read back by the real reader (pushChar, runeMap) as that character as printed, in "
    "upper case, in lower case, and (variant 3) with the case of every letter SYMBOLIC", max_case_s=600)
